@@ -287,6 +287,7 @@ def validate(rep, cases, wdir, tag, pid):
         rep.add_tlc(x)
     rep.traces += len(lines)
     rep.extra["programs_judged"] = rep.extra.get("programs_judged", 0) + totals["ops"]
+    rep.extra["programs_outside_number_domain"] = rep.extra.get("programs_outside_number_domain", 0) + totals.get("outside", 0)
     cmap = {c["id"]: c for c in cases}
     obs = {l["id"]: l for l in lines}
     groups = {}
@@ -351,7 +352,7 @@ def run(rep, tier, seed, replay):
     rep.assumptions += [
         "the reference semantics is my reading of the property statement and DESIGN.md appendix A (integers, booleans, strings, arrays by value)",
         "observations: the marker log (diag_log str x) and the script's final value ('Context dropped with return value'); values of constructs are observed through marker statements",
-        "negative zero is printed as 0 (the reference computes on integers)",
+        "negative zero is printed as 0 (the reference computes on integers of at most six digits; a generated program whose arithmetic leaves that range is not judged and counted in programs_outside_number_domain)",
         "generated programs are type-correct and terminating",
     ]
     if replay:
